@@ -815,12 +815,14 @@ Proof.
 Qed.
 
 (* ------------------------------------------------------------------ *)
-(* witnesses in the exact-IEEE instance (finding strip-zero-slice)        *)
+(* witnesses in the exact-IEEE instance (finding strip-zero-slice).  The `pre_fix_` ones are
+   HISTORICAL: they are about the model instance with pt = false, i.e. the definitions of the code
+   before fix commit 150ba09; zero_slice_with_fix is about pt = true, the current code. *)
 Definition zs_prog : list (instr xq) := [pair_step 2 0 1 [[(0,0)];[(0,1)];[(1,0)];[(1,1)]]%N].
 Definition zs_slices : list (list (list xq)) :=
   [ [[q 1 1; q 2 1]; [q 1 1; q 2 1]];  [[q 0 1; q 0 1]; [q 3 1; q 4 1]] ].
 
-Lemma zero_slice_refuted : exists prog slices r s,
+Lemma pre_fix_zero_slice_refuted : exists prog slices r s,
   X_wf prog [0;1]%nat = true /\
   X_sum false false false prog slices = Some (Plain (MArr r)) /\
   forallb x_nonzero_finite r = true /\
@@ -832,7 +834,7 @@ Proof.
   vm_compute. repeat split; reflexivity.
 Qed.
 
-Lemma zero_slice_check_zero : 
+Lemma pre_fix_zero_slice_check_zero : 
   x_value_ok (Plain (MArr [XF 1; XF 2; XF 2; XF 4]))
              (match X_sum false true true zs_prog zs_slices with Some s => s | None => Plain (MScal XNaN) end) = true /\
   X_sum false true true zs_prog [nth 1 zs_slices []; nth 1 zs_slices []; nth 0 zs_slices []] =
@@ -1168,4 +1170,192 @@ Proof.
   - intro. lra.
   - cbn [exp_inv]. rewrite pow10_0, prodk_ones. reflexivity.
   - exact I.
+Qed.
+
+(* ------------------------------------------------------------------ *)
+(* fixed semantics: add_maybe_exponent_stripped / gather_slices with -inf exponents *)
+Lemma R_mscale_r_0 : forall m c, R_mscale_r (R_mscale_r m 0) c = R_mscale_r m 0.
+Proof. intros. rewrite R_mscale_r_mul. f_equal. ring. Qed.
+
+Lemma T_add_core : forall xm xe ym ye,
+  T_value (if er_isninf (er_max xe ye) then Strip (R_madd xm ym) (er_max xe ye)
+           else Strip (R_madd (R_mscale_r xm (er_pow xe (er_max xe ye)))
+                              (R_mscale_r ym (er_pow ye (er_max xe ye)))) (er_max xe ye)) =
+  R_madd (R_mscale_r xm (p10 xe)) (R_mscale_r ym (p10 ye)).
+Proof.
+  intros xm xe ym ye. destruct xe as [a|], ye as [b|]; cbn [er_max er_isninf T_value p10 er_pow].
+  - rewrite R_mscale_r_madd, !R_mscale_r_mul, !pow10_diff. reflexivity.
+  - rewrite R_mscale_r_madd, !R_mscale_r_mul, pow10_diff. do 2 f_equal. ring.
+  - rewrite R_mscale_r_madd, !R_mscale_r_mul, pow10_diff. f_equal. f_equal. ring.
+  - apply R_mscale_r_madd.
+Qed.
+
+Lemma T_add_value : forall x y, T_value (T_add x y) = R_madd (T_value x) (T_value y).
+Proof.
+  intros x y. destruct x as [xm|xm xe], y as [ym|ym ye]; unfold T_add, add_maybe.
+  - reflexivity.
+  - fold R_mscale_r R_madd. rewrite T_add_core. cbn [T_value p10]. rewrite pow10_0, R_mscale_r_1. reflexivity.
+  - fold R_mscale_r R_madd. rewrite T_add_core. cbn [T_value p10]. rewrite pow10_0, R_mscale_r_1. reflexivity.
+  - fold R_mscale_r R_madd. apply T_add_core.
+Qed.
+
+Lemma T_fold_add_value : forall rest s,
+  T_value (fold_left T_add rest s) = fold_left R_madd (map T_value rest) (T_value s).
+Proof.
+  induction rest as [|t rest IH]; intro s; cbn [fold_left map]; [reflexivity|].
+  rewrite IH, T_add_value. reflexivity.
+Qed.
+
+Lemma T_gather_sum_value : forall s rest r,
+  T_gather_sum (s :: rest) = Some r ->
+  T_value r = fold_left R_madd (map T_value rest) (T_value s).
+Proof.
+  intros s rest r H. unfold T_gather_sum, gather_sum in H. injection H as E. subst r.
+  apply T_fold_add_value.
+Qed.
+
+Definition tkvalue (ks : nat * sval R er) : nat * mant R := (fst ks, T_value (snd ks)).
+
+Lemma T_chunk_add_value : forall k s chunks,
+  map tkvalue (chunk_add R er Rplus Rmult er_isninf (EFin 0) er_max er_pow k s chunks) =
+  vchunk_add k (T_value s) (map tkvalue chunks).
+Proof.
+  intros k s chunks. induction chunks as [|[k' c] chunks IH]; cbn [chunk_add map vchunk_add].
+  - reflexivity.
+  - unfold tkvalue at 2. cbn [fst snd]. destruct (Nat.eqb k' k).
+    + cbn [map]. unfold tkvalue at 1. cbn [fst snd]. fold T_add. rewrite T_add_value. reflexivity.
+    + cbn [map]. rewrite IH. reflexivity.
+Qed.
+
+Lemma T_group_value : forall keyed, map tkvalue (T_group keyed) = vgroup (map tkvalue keyed).
+Proof.
+  intro keyed. unfold T_group, group_chunks, vgroup.
+  assert (G : forall acc,
+    map tkvalue (fold_left (fun chunks ks =>
+       chunk_add R er Rplus Rmult er_isninf (EFin 0) er_max er_pow (fst ks) (snd ks) chunks) keyed acc) =
+    fold_left (fun chunks kv => vchunk_add (fst kv) (snd kv) chunks) (map tkvalue keyed) (map tkvalue acc)).
+  { induction keyed as [|ks keyed IH]; intro acc; cbn [fold_left map]; [reflexivity|].
+    rewrite IH, T_chunk_add_value. reflexivity. }
+  apply (G []).
+Qed.
+
+Lemma er_max_ninf : forall a b, er_max a b = ENInf -> a = ENInf /\ b = ENInf.
+Proof. intros [a|] [b|]; cbn [er_max]; intro H; try discriminate; split; reflexivity. Qed.
+
+Lemma fold_er_max_ninf : forall l x, fold_left er_max l x = ENInf ->
+  x = ENInf /\ forall e, In e l -> e = ENInf.
+Proof.
+  induction l as [|y l IH]; intros x H; cbn [fold_left] in H.
+  - split; [exact H | intros e []].
+  - destruct (IH _ H) as [Hxy Hl]. destruct (er_max_ninf _ _ Hxy) as [Hx Hy].
+    split; [exact Hx|]. intros e [E|E]; [rewrite <- E; exact Hy | apply Hl; exact E].
+Qed.
+
+Lemma T_exps_of_strip : forall (chunks : list (nat * sval R er)) es,
+  exps_of R er chunks = Some es ->
+  forall kc, In kc chunks -> exists m e, snd kc = Strip m e /\ In e es.
+Proof.
+  induction chunks as [|[k c] chunks IH]; intros es H kc Hin; [destruct Hin|].
+  cbn [exps_of fold_right] in H. fold (exps_of R er chunks) in H. cbn [snd] in H.
+  destruct c as [m|m e]; [discriminate|].
+  destruct (exps_of R er chunks) as [l|] eqn:X; [|discriminate].
+  injection H as E. subst es. destruct Hin as [Hin|Hin].
+  - subst kc. exists m, e. split; [reflexivity | left; reflexivity].
+  - destruct (IH l eq_refl kc Hin) as [m' [e' [E1 E2]]]. exists m', e'. split; [exact E1 | right; exact E2].
+Qed.
+
+(* the rescaling before stacking, all cases: finite emax, and emax = -inf (every chunk zero) *)
+Lemma T_gather_stack_value : forall b chunks res em,
+  T_gather_stack b chunks = Some (res, Some em) ->
+  map (fun km => (fst km, R_mscale_r (snd km) (p10 em))) res = map tkvalue chunks.
+Proof.
+  intros b chunks res em H. unfold T_gather_stack, gather_stack in H.
+  destruct chunks as [|[k0 c0] chunks0] eqn:EC; [discriminate|].
+  destruct c0 as [m0|m0 e0].
+  - destruct (forallb _ _); discriminate.
+  - rewrite <- EC in *.
+    destruct (exps_of R er chunks) as [es|] eqn:X; [|discriminate].
+    destruct (pymax_list er er_max es) as [em'|] eqn:P; [|discriminate].
+    match type of H with (if ?c then _ else _) = _ => destruct c end; [discriminate|].
+    injection H as Eres Eem. subst res em'.
+    pose proof (T_exps_of_strip _ _ X) as Hs. clear X EC.
+    rewrite map_map. apply map_ext_in. intros [k c] Hin. cbn [fst snd].
+    destruct (Hs _ Hin) as [m [e [E Hes]]]. cbn [snd] in E. subst c.
+    unfold tkvalue. cbn [fst snd T_value]. f_equal.
+    destruct em as [M|]; cbn [er_isninf p10].
+    + destruct e as [a|]; cbn [er_pow p10].
+      * rewrite R_mscale_r_mul, pow10_diff. reflexivity.
+      * apply R_mscale_r_0.
+    + (* emax = -inf: every chunk exponent is -inf *)
+      unfold pymax_list in P. destruct es as [|x r]; [discriminate|]. injection P as P.
+      destruct (fold_er_max_ninf _ _ P) as [Hx Hr].
+      assert (e = ENInf) by (destruct Hes as [E|E]; [rewrite <- E; exact Hx | apply Hr; exact E]).
+      subst e. reflexivity.
+Qed.
+
+(* ------------------------------------------------------------------ *)
+(* end to end, fixed semantics, all slices (zero ones included)         *)
+Lemma T_value_strip_arr : forall m e, T_value (Strip (MArr m) e) = MArr (R_scale (p10 e) m).
+Proof. intros. cbn [T_value]. unfold R_mscale_r, mscale_r. rewrite scale_r_scale. reflexivity. Qed.
+
+Definition strip_of (me : list R * er) : sval R er := Strip (MArr (fst me)) (snd me).
+Definition plain_of (me : list R * er) : list R := R_scale (p10 (snd me)) (fst me).
+
+Lemma slices_plain_total : forall g' prog slices ms,
+  Forall homog_instr prog ->
+  Forall2 (fun arrs me => wf_prog R prog (seq 0 (length arrs)) = true /\
+                          T_core true false prog arrs = Done (fst me) (Some (snd me))) slices ms ->
+  Forall2 (fun arrs p => R_core g' false false prog arrs = Done p None) slices (map plain_of ms).
+Proof.
+  intros g' prog slices ms Hh HF.
+  induction HF as [|arrs me slices ms [Hwf Hrun] HF IH]; cbn [map]; constructor; [|exact IH].
+  apply strip_value_total; assumption.
+Qed.
+
+Lemma sliced_sum_value_total : forall g' prog slices ms r,
+  Forall homog_instr prog ->
+  Forall2 (fun arrs me => wf_prog R prog (seq 0 (length arrs)) = true /\
+                          T_core true false prog arrs = Done (fst me) (Some (snd me))) slices ms ->
+  T_gather_sum (map strip_of ms) = Some r ->
+  exists ps, Forall2 (fun arrs p => R_core g' false false prog arrs = Done p None) slices ps /\
+             match ps with
+             | [] => False
+             | p :: rest => T_value r = fold_left R_madd (map (fun x => MArr x) rest) (MArr p)
+             end.
+Proof.
+  intros g' prog slices ms r Hh HF Hr.
+  exists (map plain_of ms). split; [apply slices_plain_total; assumption|].
+  destruct ms as [|me ms]; [discriminate|]. cbn [map] in *.
+  rewrite (T_gather_sum_value _ _ _ Hr). unfold strip_of at 2. rewrite T_value_strip_arr. f_equal.
+  rewrite !map_map. apply map_ext. intros [m e]. unfold strip_of. cbn [fst snd]. apply T_value_strip_arr.
+Qed.
+
+Lemma tkvalue_combine : forall (kl : list nat) ms,
+  map tkvalue (combine kl (map strip_of ms)) = combine kl (map (fun x => MArr x) (map plain_of ms)).
+Proof.
+  induction kl as [|k kl IH]; intros [|me ms]; cbn [combine map]; try reflexivity.
+  rewrite IH. f_equal. unfold tkvalue, strip_of. cbn [fst snd]. rewrite T_value_strip_arr. reflexivity.
+Qed.
+
+Lemma sliced_stack_value_total : forall g' b prog slices ms (keys : list nat) res em,
+  Forall homog_instr prog ->
+  Forall2 (fun arrs me => wf_prog R prog (seq 0 (length arrs)) = true /\
+                          T_core true false prog arrs = Done (fst me) (Some (snd me))) slices ms ->
+  T_gather_stack b (T_group (combine keys (map strip_of ms))) = Some (res, Some em) ->
+  exists ps, Forall2 (fun arrs p => R_core g' false false prog arrs = Done p None) slices ps /\
+             map (fun km => (fst km, R_mscale_r (snd km) (p10 em))) res =
+             vgroup (combine keys (map (fun x => MArr x) ps)).
+Proof.
+  intros g' b prog slices ms keys res em Hh HF H.
+  exists (map plain_of ms). split; [apply slices_plain_total; assumption|].
+  rewrite (T_gather_stack_value _ _ _ _ H), T_group_value, tkvalue_combine. reflexivity.
+Qed.
+
+(* "whenever that result is non-zero": a denoted value with a non-zero entry has a finite exponent *)
+Lemma nonzero_value_finite_exponent : forall m e v,
+  In v (R_scale (p10 e) m) -> v <> 0 -> exists x, e = EFin x.
+Proof.
+  intros m e v Hin Hv. destruct e as [x|]; [exists x; reflexivity|].
+  exfalso. apply Hv. cbn [p10] in Hin. pose proof (scale0_zero m) as Z.
+  unfold zero in Z. rewrite Forall_forall in Z. apply Z. exact Hin.
 Qed.
